@@ -67,18 +67,19 @@ Definition nontrivial_case (inp : list Z) : bool :=
   be g && cfsOn g && (2 <=? Z.of_nat (length (spec_of cs)))
   && (all_cpu_limited (spec_of cs) || all_mem_limited (spec_of cs)).
 
-(* known-finding shapes of a failing case:
-   1 = D10 (a container without batch resources is ignored by the pod-level values);
-   2 = stale ratio: the rule kept the previous ratio because the float64 difference to the new
-       annotation is below 0.01, and the observation is correct for that previous ratio;
-   3 = both at once *)
+(* the generator's guard: two successive rule updates are never neighbouring two-decimal values
+   (|prev - ratio| = 0.01), whose float64 difference may fall below the rule's 0.01 hysteresis;
+   under the guard the rule holds the ratio the node advertises (Proofs_Codec.guard_fresh) *)
+Definition input_guard (inp : list Z) : bool :=
+  match inp with
+  | _mode :: _q :: _c :: prev :: k :: _ =>
+      (prev <? 2 ^ 40) && (k <? 2 ^ 40)
+      && negb ((0 <? prev) && (0 <? k) && (Z.abs (prev - k) =? 1))
+  | _ => true
+  end.
+
+(* known-finding shape of a failing case: 1 = D10 (a container without batch resources is
+   ignored by the pod-level values); every other failure is 0 *)
 Definition finding_sig (inp o : list Z) : Z :=
-  let '(g, gw, cs) := decode inp in
-  if negb (well_sized (length cs) o) then 0
-  else let ob := dec_obs o in
-  if prop_code gw cs ob =? 0 then 0
-  else if d10_shape gw cs ob then 1
-  else if ratio g =? ratio gw then 0
-  else if prop_code g cs ob =? 0 then 2
-  else if d10_shape g cs ob then 3
-  else 0.
+  let '(_, gw, cs) := decode inp in
+  if well_sized (length cs) o && d10_shape gw cs (dec_obs o) then 1 else 0.
